@@ -469,7 +469,7 @@ func (r *FnRun) callByContract(fr *Frame, st *State, ct *Contract, names []strin
 		var ts []Term
 		if dargs == nil {
 			for _, a := range args {
-				ts = append(ts, termOf(a))
+				ts = append(ts, r.argTerm(a, env))
 			}
 		} else {
 			penv := &specEnv{st: pre, old: pre, vars: vars, pkg: ct.Pkg, what: ct.Name + " deterministic"}
@@ -528,6 +528,11 @@ func (r *FnRun) havocTarget(st *State, e SExpr, env *specEnv) {
 			pre.st = env.old
 			v := r.evalSpec(x.Args[0], &pre)
 			if iv, ok := v.(IfaceVal); ok {
+				if iv.Inner == nil && strings.HasPrefix(iv.T.S, "glob_") && !strings.Contains(iv.T.S, "buildbarn") {
+					// a package-level value of an external package (io.Discard):
+					// its state is not part of the modelled heap
+					return
+				}
 				if iv.Inner == nil {
 					r.note("modifies fields(x) with unknown dynamic type: whole heap havocked")
 					r.havocAll(st)
